@@ -8,6 +8,9 @@ CONSTANTS
   OldVersions = TRUE
   StartRecipes = {"queued"}
   MutOps = {"abort"}
+  SetVals = {"some", "full"}
+  PeerFaults = FALSE
+  PeerToggles = FALSE
   MaxInit = 2
   MaxPresent = 2
   MaxOps = 4
